@@ -10,6 +10,8 @@ import (
 	"sync"
 	"time"
 	"unsafe"
+
+	jose "github.com/go-jose/go-jose/v4"
 )
 
 // Digest is a reflective deep digest: a flat map "path -> leaf text" of
@@ -82,6 +84,7 @@ var exportedOnly = map[string]bool{
 var fullWalk = map[string]bool{"bytes.Buffer": true, "strings.Builder": true, "errors.errorString": true, "fmt.wrapError": true, "fmt.wrapErrors": true, "errors.joinError": true}
 
 var timeType = reflect.TypeOf(time.Time{})
+var jwkType = reflect.TypeOf(jose.JSONWebKey{})
 var poolType = reflect.TypeOf(sync.Pool{})
 
 // DrainPool empties a sync.Pool: with New switched off, Get is called until it returns nil.
@@ -266,6 +269,13 @@ func (d *Digest) walk(p string, v reflect.Value, g bool, depth int) {
 		if t == timeType {
 			tm := addressable(v).Interface().(time.Time)
 			d.set(p, fmt.Sprintf("time:%d:%s", tm.UnixNano(), tm.Location().String()), g)
+			return
+		}
+		if t == jwkType {
+			// a JSON Web Key (third-party struct) is a leaf: key id, use, algorithm, thumbprint of the key
+			// material - key lists (caller-owned, cached by a key set) are compared element by element
+			k := addressable(v).Interface().(jose.JSONWebKey)
+			d.set(p, RenderJWK(&k), g)
 			return
 		}
 		pol := policy(t)
